@@ -150,7 +150,7 @@ theorem keeps_nextChunk {sab sba Bd : Nat} (s : Core) : Keeps f mtu sab sba Bd s
 theorem keeps_tryOnce {sab sba Bd : Nat} (s : Core) : Keeps f mtu sab sba Bd s (tryOnce f mtu s).1 := by
   unfold tryOnce
   have h0 := keeps_fates (f := f) (mtu := mtu) (sab := sab) (sba := sba) (Bd := Bd) s s.fates.tail (s.calls + 1)
-  cases s.fates.head?.getD .ok <;> simp only
+  cases s.fates.head?.getD s.dflt <;> simp only
   · exact h0.trans (keeps_xchg _ .d rfl)
   · exact h0.trans (keeps_xchg _ .ql rfl)
   · exact h0.trans (keeps_xchg _ .al rfl)
@@ -309,9 +309,14 @@ theorem settleU_inv (hm : 0 < mtu) (hBd : 1 ≤ Bd) (hpos : f.countPos = 0) {s :
     · exact h
   · exact h
 
-theorem poll_inv {s : St} (h : Inv f mtu sab sba Bd s) : Inv f mtu sab sba Bd (poll f mtu s) := by
+theorem keeps_pollBody (hpoll : f.pollArg = 0) (s : Core) : Keeps f mtu sab sba Bd s (pollBody f mtu s).1 := by
+  unfold pollBody
+  rw [if_pos hpoll]
+  exact (keeps_nextChunk s).trans (keeps_sendRecv _ _)
+
+theorem poll_inv (hpoll : f.pollArg = 0) {s : St} (h : Inv f mtu sab sba Bd s) : Inv f mtu sab sba Bd (poll f mtu s) := by
   unfold poll
-  exact Inv.say (h.keeps ((keeps_nextChunk s.core).trans (keeps_sendRecv _ _))) _
+  exact Inv.say (h.keeps (keeps_pollBody hpoll s.core)) _
 
 theorem settle_inv (hm : 0 < mtu) (hBd : 1 ≤ Bd) (hpos : f.countPos = 0) {s : St}
     (h : Inv f mtu sab sba Bd s) : Inv f mtu sab sba Bd (settle f mtu s) :=
@@ -321,7 +326,7 @@ theorem keeps_other {s : Core} (e : Ev) (he : evOk mtu 0 Bd e = true)
     (ha : (stepS f.cfg mtu s.sys e).a.accR = s.sys.a.accR) : Keeps f mtu sab sba Bd s (Core.ap f mtu s e) :=
   ⟨fun r => r.ap _ he, ha⟩
 
-theorem stepW_inv (hm : 0 < mtu) (hBd : 1 ≤ Bd) (hpos : f.countPos = 0) {s : St}
+theorem stepW_inv (hm : 0 < mtu) (hBd : 1 ≤ Bd) (hpos : f.countPos = 0) (hpoll : f.pollArg = 0) {s : St}
     (h : Inv f mtu sab sba Bd s) (e : WEv) (he : e.ok Bd = true) : Inv f mtu sab sba Bd (stepW f mtu s e) := by
   cases e with
   | w k =>
@@ -349,7 +354,7 @@ theorem stepW_inv (hm : 0 < mtu) (hBd : 1 ≤ Bd) (hpos : f.countPos = 0) {s : S
           (.write true (streamD s.posD k)) (by simpa [evOk] using hc) rfl
         exact Inv.say ⟨kk.reach h.reach, by
           show (Core.ap f mtu s.core _).sys.a.acc = _; unfold End.acc; rw [kk.acc]; exact h.acc⟩ _
-  | p => exact poll_inv h
+  | p => exact poll_inv hpoll h
   | r k =>
     simp only [stepW]
     exact Inv.say (h.keeps (keeps_other _ rfl rfl)) _
@@ -361,7 +366,7 @@ theorem stepW_inv (hm : 0 < mtu) (hBd : 1 ≤ Bd) (hpos : f.countPos = 0) {s : S
   | D => exact h.of_core rfl rfl
   | N => exact h.of_core rfl rfl
 
-theorem runW_inv (hm : 0 < mtu) (hBd : 1 ≤ Bd) (hpos : f.countPos = 0) :
+theorem runW_inv (hm : 0 < mtu) (hBd : 1 ≤ Bd) (hpos : f.countPos = 0) (hpoll : f.pollArg = 0) :
     ∀ (es : List WEv) (s : St), Inv f mtu sab sba Bd s → es.all (WEv.ok Bd) = true →
       Inv f mtu sab sba Bd (runW f mtu s es) := by
   intro es
@@ -370,7 +375,7 @@ theorem runW_inv (hm : 0 < mtu) (hBd : 1 ≤ Bd) (hpos : f.countPos = 0) :
   | cons e es ih =>
     intro s h hall
     simp only [List.all_cons, Bool.and_eq_true] at hall
-    exact ih _ (Inv.say (settle_inv hm hBd hpos (stepW_inv hm hBd hpos h e hall.1)) _) hall.2
+    exact ih _ (Inv.say (settle_inv hm hBd hpos (stepW_inv hm hBd hpos hpoll h e hall.1)) _) hall.2
 
 theorem start_inv (fates : List XF) : Inv f mtu sab sba Bd (start sab sba fates) :=
   ⟨⟨rfl, rfl⟩, rfl⟩
